@@ -76,7 +76,9 @@ func genScript(r *c.Rng) [][]any {
 		return uint64(r.Intn(11))
 	}
 	for i := 0; i < n; i++ {
-		switch k := r.Intn(24); {
+		switch k := r.Intn(27); {
+		case k >= 24:
+			calls = append(calls, genPoll(r))
 		case k < 6:
 			calls = append(calls, []any{"clock_time_get", pick(r, []uint64{0, 0, 0, 1, 1, 1, 2, 3, 99, 1 << 32}), pick(r, []uint64{0, 1, 1000, r.U64()})})
 		case k < 8:
@@ -110,6 +112,32 @@ func genScript(r *c.Rng) [][]any {
 	return calls
 }
 
+// genPoll: poll_oneoff with 1..8 subscriptions of every kind; half of them are made of fd_read subscriptions on the
+// stdio descriptors only (the ones that are answered after all the others).
+func genPoll(r *c.Rng) []any {
+	n := 1 + r.Intn(8)
+	stdio := r.Intn(2) == 0
+	subs := make([]any, n)
+	for j := range subs {
+		ud := pick(r, []uint64{uint64(j + 1), uint64(j + 1), r.U64()})
+		switch k := r.Intn(10); {
+		case stdio || k < 4:
+			fd := uint64(r.Intn(3))
+			if !stdio {
+				fd = pick(r, []uint64{0, 1, 2, 3, 4, 99, 1 << 31, 0xffffffff})
+			}
+			subs[j] = []any{"read", fd, ud}
+		case k < 7:
+			subs[j] = []any{"clock", pick(r, []uint64{0, 1000, 5_000_000, 1 << 63, r.U64()}), pick(r, []uint64{0, 0, 0, 0, 0, 0, 1, 2, 0x10000}), ud}
+		case k < 9:
+			subs[j] = []any{"write", pick(r, []uint64{0, 1, 2, 3, 99, 1 << 31}), ud}
+		default:
+			subs[j] = []any{"other", pick(r, []uint64{3, 7, 255}), ud}
+		}
+	}
+	return []any{"poll", subs}
+}
+
 func fixedScript() [][]any {
 	var calls [][]any
 	for i := 0; i < 5; i++ {
@@ -124,6 +152,12 @@ func fixedScript() [][]any {
 		[]any{"sched_yield"},
 		[]any{"clock_time_get", uint64(0), uint64(0)}, []any{"clock_time_get", uint64(1), uint64(0)},
 	)
+	// fd_read subscriptions on all three stdio descriptors (each is answered after the immediate ones), many times over
+	for i := 0; i < 12; i++ {
+		calls = append(calls, []any{"poll", []any{[]any{"read", uint64(i % 3), uint64(1)}, []any{"clock", uint64(1000), uint64(0), uint64(2)},
+			[]any{"read", uint64((i + 1) % 3), uint64(3)}, []any{"write", uint64(1), uint64(4)}, []any{"read", uint64((i + 2) % 3), uint64(5)},
+			[]any{"read", uint64(9), uint64(6)}}})
+	}
 	for fd := uint64(0); fd <= 10; fd++ {
 		calls = append(calls, []any{"fd_prestat_get", fd}, []any{"fd_fdstat_get", fd}, []any{"fd_read", fd, uint64(8)},
 			[]any{"fd_write", fd, []any{uint64(104), uint64(105)}}, []any{"path_open", fd})
@@ -272,6 +306,38 @@ func exec1(ctx context.Context, mod api.Module, call []any) res {
 			return res{e, nil}
 		}
 		return res{0, append(rd(pA, 4), rd(pEvt, 32)...)}
+	case "poll": // a list of subscriptions
+		subs := call[1].([]any)
+		buf := make([]byte, 48*len(subs))
+		for j, sv := range subs {
+			sb := sv.([]any)
+			b := buf[48*j:]
+			switch sb[0].(string) {
+			case "clock": // timeout flags userdata
+				binary.LittleEndian.PutUint64(b[0:], u(sb[3]))
+				b[8] = 0
+				binary.LittleEndian.PutUint32(b[16:], uint32(j&1))
+				binary.LittleEndian.PutUint64(b[24:], u(sb[1]))
+				binary.LittleEndian.PutUint16(b[40:], uint16(u(sb[2])))
+			case "read", "write": // fd userdata
+				binary.LittleEndian.PutUint64(b[0:], u(sb[2]))
+				b[8] = 1
+				if sb[0].(string) == "write" {
+					b[8] = 2
+				}
+				binary.LittleEndian.PutUint32(b[16:], uint32(u(sb[1])))
+			default: // type userdata
+				binary.LittleEndian.PutUint64(b[0:], u(sb[2]))
+				b[8] = byte(u(sb[1]))
+			}
+		}
+		mem.Write(pSub, buf)
+		fill(pEvt, uint32(32*len(subs)))
+		fill(pA, 4)
+		if e := fn("poll_oneoff", pSub, pEvt, uint64(len(subs)), pA); e != 0 {
+			return res{e, nil}
+		}
+		return res{0, append(rd(pA, 4), rd(pEvt, uint32(32*len(subs)))...)}
 	case "sched_yield":
 		return res{fn(name), nil}
 	case "path_open":
